@@ -469,6 +469,10 @@ enum Query {
     Method(String, String),
     Variant(String, String),
     Type(String, String),
+    /// scoped names `A::B::C`: `get_type_scoped` on the module / on a class, `resolve_type_scoped` on a class
+    GScoped(String),
+    CScoped(String, String),
+    RScoped(String, String),
 }
 
 fn expand_queries(tbl: &TableSpec, qs: &[Sexp]) -> Option<Vec<Query>> {
@@ -505,6 +509,17 @@ fn expand_queries(tbl: &TableSpec, qs: &[Sexp]) -> Option<Vec<Query>> {
             "method" => two(Query::Method, &mut out)?,
             "variant" => two(Query::Variant, &mut out)?,
             "type" => two(Query::Type, &mut out)?,
+            "cscoped" => two(Query::CScoped, &mut out)?,
+            "rscoped" => two(Query::RScoped, &mut out)?,
+            "gscoped" => {
+                if a.len() != 1 {
+                    return None;
+                }
+                out.push(Query::GScoped(a[0].clone()))
+            }
+            "gscoped*" => out.extend(a.iter().map(|n| Query::GScoped(n.clone()))),
+            "cscoped*" => each(Query::CScoped, &mut out),
+            "rscoped*" => each(Query::RScoped, &mut out),
             "supers" => {
                 if a.len() != 1 {
                     return None;
@@ -557,10 +572,31 @@ fn coarse<'a>(cls: &Class<'a>, owner: &Class<'a>, declared: bool) -> Sexp {
     list(v)
 }
 
+/// answer to a scoped-name query: what the name denotes
+fn named_sexp(r: Option<Result<NamedType, TypeMapError>>, spec: bool) -> Sexp {
+    match r {
+        None => atom("-"),
+        Some(Err(e)) => {
+            if spec {
+                atom("-")
+            } else {
+                err_sexp(&e)
+            }
+        }
+        Some(Ok(_)) if spec => list(vec![atom("found")]),
+        Some(Ok(NamedType::Class(c))) => node("ok", vec![atom("class"), st(c.name().to_owned())]),
+        Some(Ok(NamedType::Enum(e))) => node("ok", vec![atom("enum"), st(e.qualified_cxx_name().into_owned())]),
+        Some(Ok(NamedType::Primitive(p))) => node("ok", vec![atom("prim"), st(p.name())]),
+        Some(Ok(other)) => node("ok", vec![atom("other"), st(format!("{other:?}"))]),
+    }
+}
+
 fn run_query<'a>(tbl: &TableSpec, module: &Namespace<'a>, q: &Query, spec: bool) -> Sexp {
     let cname = match q {
+        Query::GScoped(n) => return named_sexp(module.get_type_scoped(n), spec),
         Query::Derives(a, _) | Query::CommonBase(a, _) | Query::Supers(a) => a,
         Query::Prop(a, _) | Query::Method(a, _) | Query::Variant(a, _) | Query::Type(a, _) => a,
+        Query::CScoped(a, _) | Query::RScoped(a, _) => a,
     };
     let Some(cls) = get_class(module, cname) else {
         return atom("noclass");
@@ -569,6 +605,9 @@ fn run_query<'a>(tbl: &TableSpec, module: &Namespace<'a>, q: &Query, spec: bool)
     // for the property an error is one way of not finding something
     let err = |e: &TypeMapError| if spec { atom("-") } else { err_sexp(e) };
     match q {
+        Query::GScoped(_) => unreachable!("answered above"),
+        Query::CScoped(_, n) => named_sexp(cls.get_type_scoped(n), spec),
+        Query::RScoped(_, n) => named_sexp(cls.resolve_type_scoped(n), spec),
         Query::Derives(_, b) => {
             let Some(base) = get_class(module, b) else {
                 return atom("noclass");
@@ -1052,6 +1091,56 @@ fn pipeline_derives(classes: &[ClassSpec], i: usize, j: usize) -> bool {
     false
 }
 
+/// Scoped-name queries for a table: `A::B` for A among classes / a module enum / a builtin / an unknown name and B among the
+/// members of A, of ancestors, of DESCENDANTS, sibling and top-level classes, A itself, module enums, builtins, nested enums
+/// of other classes, enumerators, unknown names — one to three levels.  `gscoped*` on the module; `cscoped*` / `rscoped*` from
+/// every class (tables of at most 12 classes).
+fn scoped_queries(t: &TableSpec) -> Vec<Sexp> {
+    let mut cs: Vec<String> = vec![];
+    for c in &t.classes {
+        if !cs.contains(&c.name) {
+            cs.push(c.name.clone());
+        }
+    }
+    // the first, the last and the classes in between that declare enums first
+    let mut pick: Vec<String> = vec![];
+    for c in cs.first().into_iter().chain(cs.last()).chain(cs.iter().filter(|n| t.effective(n).map(|c| !c.enums.is_empty()).unwrap_or(false))).chain(cs.iter()) {
+        if !pick.contains(c) && pick.len() < 5 {
+            pick.push(c.clone());
+        }
+    }
+    let heads: Vec<String> = pick.iter().cloned().chain(["E0", "int", "Nope", "E"].map(String::from)).collect();
+    let tails: Vec<String> = pick.iter().cloned().chain(["E", "F", "G", "V0", "V1", "E0", "int", "QString", "Nope"].map(String::from)).collect();
+    let mut g: Vec<String> = heads.clone();
+    for a in &heads {
+        for b in &tails {
+            g.push(format!("{a}::{b}"));
+        }
+    }
+    for a in pick.iter().take(3) {
+        for b in ["E".to_owned(), pick[0].clone(), a.clone()] {
+            for c in ["E", "V0", "int", pick[0].as_str()] {
+                g.push(format!("{a}::{b}::{c}"));
+            }
+        }
+    }
+    let mut out = vec![node("gscoped*", g.iter().map(|n| st(n.clone())).collect())];
+    if t.classes.len() <= 12 {
+        let mut per: Vec<String> = ["E", "F", "V0", "int", "Nope", "E0"].map(String::from).to_vec();
+        per.push(pick[0].clone());
+        for a in pick.iter().take(3).cloned().chain(["E", "int"].map(String::from)) {
+            for b in ["E", "F", "V0", "int", "Nope", pick[0].as_str()] {
+                per.push(format!("{a}::{b}"));
+            }
+        }
+        per.push(format!("{}::E::V0", pick[0]));
+        per.push(format!("{}::E::E", pick[0]));
+        out.push(node("cscoped*", per.iter().map(|n| st(n.clone())).collect()));
+        out.push(node("rscoped*", per.iter().map(|n| st(n.clone())).collect()));
+    }
+    out
+}
+
 fn member_queries() -> Vec<Sexp> {
     all_queries().into_iter().skip(3).collect()
 }
@@ -1060,10 +1149,11 @@ fn member_queries() -> Vec<Sexp> {
 /// (kind=pred), coarse answers vs the specification (skipped by the driver when the coarse answer is not determined)
 fn push_typed_cases(cases: &mut Vec<Case>, t: &TableSpec, labels: Vec<String>) {
     let (cs, os) = t.to_sexp();
-    let args = vec![cs.clone(), os.clone(), node("queries", all_queries())];
+    let scoped = scoped_queries(t);
+    let args = vec![cs.clone(), os.clone(), node("queries", [all_queries(), scoped.clone()].concat())];
     cases.push(Case { kind: "model", labels: labels.clone(), request: node("cg", args.clone()) });
     cases.push(Case { kind: "spec", labels: labels.clone(), request: node("spec-cg", args) });
-    cases.push(Case { kind: "pred", labels, request: node("spec-cg", vec![cs, os, node("queries", member_queries()), node("judge", vec![])]) });
+    cases.push(Case { kind: "pred", labels, request: node("spec-cg", vec![cs, os, node("queries", [member_queries(), scoped].concat()), node("judge", vec![])]) });
 }
 
 fn all_queries() -> Vec<Sexp> {
@@ -1176,9 +1266,15 @@ impl Stream for C17 {
                 typed: false,
             };
             let t = gen_table(&mut rng, &sh);
-            let labels = describe(&t);
+            let mut labels = describe(&t);
             let (cs, os) = t.to_sexp();
-            let args = vec![cs, os, node("queries", all_queries())];
+            // every fourth table also with the scoped-name queries
+            let mut queries = all_queries();
+            if k % 4 == 0 {
+                queries.extend(scoped_queries(&t));
+                labels.push("scoped-names".into());
+            }
+            let args = vec![cs, os, node("queries", queries)];
             cases.push(Case { kind: "model", labels: labels.clone(), request: node("cg", args.clone()) });
             cases.push(Case { kind: "spec", labels, request: node("spec-cg", args) });
         }
